@@ -86,9 +86,9 @@ Qed.
 Lemma arr_construct_from_addr : forall xs acc s r s' n0,
   n0 <= length (hp s) ->
   run (arr_construct_from grow acc xs) s = Some (r, s') ->
-  match acc, r with
-  | VArr a _ _ _, VArr a' _ _ _ => a' = a \/ n0 <= a'
-  | _, _ => True
+  match acc with
+  | VArr a _ _ _ => match r with VArr a' _ _ _ => a' = a \/ n0 <= a' | _ => False end
+  | _ => True
   end.
 Proof.
   induction xs; intros acc s r s' n0 Hn E; cbn [arr_construct_from] in E.
